@@ -327,6 +327,11 @@ class Walker:
     def s_For(self, st, p):
         self.tick()
         it = self.ev(st.iter, p)
+        sliced = None
+        if it[0] == 'sub' and it[2][0] == 'slice' and it[2][1] == ('const', None) and it[2][3] == ('const', None) and isinstance(st.target, ast.Name):
+            # `for x in X[:n]` is `for i in range(n)` with x = X[i] (the first n elements, by position)
+            sliced = it[1]
+            it = ('call', 'range', (it[2][2],), ())
         skip = p.fork()
         skip.events.append(Event('loop', st, it, op='skip'))
         yield from self.block(st.orelse, skip)
@@ -334,6 +339,8 @@ class Walker:
         p.loops.append(it)
         p.events.append(Event('loop', st, it, op='enter'))
         self.bind_loop_target(st.target, it, depth, p, st)
+        if sliced is not None:
+            p.env[st.target.id] = ('sub', sliced, p.env[st.target.id])
         for q, flow in self.block(st.body, p):
             if flow in ('next', 'continue'):
                 q.loops = q.loops[:-1] if q.loops else q.loops
